@@ -11,7 +11,8 @@ RULE = ("Cases = as C02 for the seven deterministic-gain optimisers (modularity_
         "arbitrary labels where the routine accepts one, singletons otherwise; symmetric input for the _und routines, arbitrary for _dir and "
         "community_louvain. Oracle = Q recomputed from the definition: Q(result) >= Q(start) - 1e-9; hierarchical q list strictly increasing "
         "and each level's true Q not below the previous one's; feeding the output back as the start never lowers Q; and, through the "
-        "BCTPY_VERIF per-move hook, every accepted move's claimed gain equals the exact change of Q (times the routine's normalisation). "
+        "BCTPY_VERIF per-move hook, every accepted move's claimed gain equals the exact change of Q (times the routine's normalisation), no accepted "
+        "move lowers Q, and the returned partition is not worse than the state the accepted moves arrived at. "
         "Non-trivial = at least one move was accepted (result differs from start as a partition); distinct by hash of the case.")
 BOUNDS = {"n": "3..12 quick, 3..20 thorough", "gamma": mc.GAMMAS, "tol": 1e-9}
 MIN_NONTRIVIAL = {"quick": 400, "thorough": 4000}
@@ -108,6 +109,15 @@ def check(case, ctx):
     if rec.events:
         ctx.hook_events += len(rec.events)
         scale = mc.gain_scale(case)
+        if rec.count == len(rec.events) and not hier:
+            # history invariant: what is returned is not worse than the state the accepted moves arrived at
+            reached = mc.full_labels(rec.events[-1])
+            if reached.shape == (n,):
+                q_reached = mc.q_ref(case, reached)
+                if q_final < q_reached - TOL:
+                    fails.append(Failure("%s:returned-partition-worse-than-state-reached-by-accepted-moves" % name,
+                                         "after the last accepted move Q=%r, returned partition has Q=%r" % (q_reached, q_final), case,
+                                         _info(W, [final, reached])))
         for t, ev in enumerate(rec.events):
             before = mc.labels_before(ev)
             after = mc.full_labels(ev)
